@@ -54,7 +54,12 @@ fn scen(_spec: RunSpec) -> ScenFut {
             c.max_grants = 300_000;
         });
         let now = sim::wall_ns();
-        let split_ts = now - 20 * 60 * SEC;
+        // one run in six splits at the epoch: rows before 1970 (negative timestamps) belong below the split point
+        let at_epoch = sim::w(6) == 5;
+        let split_ts = if at_epoch { 0 } else { now - 20 * 60 * SEC };
+        if at_epoch {
+            sim::probe("split-point-at-the-epoch");
+        }
         let metric = ["cpu", "mem"][sim::w(2) as usize];
         let shard = shard_of(metric, split_ts);
         let (na, nb) = ("newshard-aaaa".to_string(), "newshard-bbbb".to_string());
@@ -108,6 +113,27 @@ fn scen(_spec: RunSpec) -> ScenFut {
             }
             sim::probe("ingester-wrote-to-the-shard-just-before-the-split");
         }
+        // a third of the object-store runs: the query node is another process - its own catalog client - that has been
+        // answering queries before the split began (one a minute ago, one just now); what it remembers from then must
+        // not make it read the copies
+        let early_qn: Option<QueryNode> = if !use_local && sim::w(3) == 2 {
+            let qmeta: Arc<dyn MetadataClient> = Arc::new(ObjectStoreMetadataClient::new(SimStore::new(inner.clone(), 1), ObjectStoreMetadataConfig::default()));
+            let mut qc = QueryConfig::default();
+            qc.l2_cache_dir = None;
+            match QueryNode::new(qc, SimStore::new(inner.clone(), 1), qmeta, StorageConfig::default()).await {
+                Ok(q) => {
+                    let w = format!("SELECT count(*) AS c FROM metrics WHERE timestamp >= {} AND timestamp <= {}", split_ts - 400 * SEC, split_ts + 400 * SEC);
+                    let _ = q.query(&w).await;
+                    tokio::time::sleep(std::time::Duration::from_secs(58)).await;
+                    let _ = q.query(&w).await;
+                    sim::probe("query-node-of-another-process-warm-before-the-split");
+                    Some(q)
+                }
+                Err(_) => None,
+            }
+        } else {
+            None
+        };
         if let Err(e) = meta.start_split(&shard, vec![na.clone(), nb.clone()], split_ts.to_be_bytes().to_vec()).await {
             sim::with(|st| st.abort = Some(format!("start_split: {e}")));
             return;
@@ -172,6 +198,14 @@ fn scen(_spec: RunSpec) -> ScenFut {
                 next_id += 1;
                 prev_row = Some(r.clone());
                 rows.push(r);
+            }
+            if at_epoch {
+                // the ingester derives the shard id from the first row; pre-epoch and post-epoch instants belong to
+                // different shards, so the first row of every batch is kept on the split shard's side of the epoch
+                match rows.iter().position(|r| r.ts >= 0) {
+                    Some(i) => rows.swap(0, i),
+                    None => rows[0].ts = split_ts,
+                }
             }
             let b = batch(1, &rows);
             match ing.write(b).await {
@@ -251,12 +285,19 @@ fn scen(_spec: RunSpec) -> ScenFut {
         // ---- read oracle ----
         let mut qc = QueryConfig::default();
         qc.l2_cache_dir = None;
-        let qn = match QueryNode::new(qc, store.clone(), meta.clone(), StorageConfig::default()).await {
-            Ok(q) => q,
-            Err(e) => {
-                sim::with(|st| st.abort = Some(format!("query node: {e}")));
-                return;
+        let qn = match early_qn {
+            Some(q) => {
+                // 3 s after the split began (61 s after this node last loaded the catalog)
+                tokio::time::sleep(std::time::Duration::from_secs(3)).await;
+                q
             }
+            None => match QueryNode::new(qc, store.clone(), meta.clone(), StorageConfig::default()).await {
+                Ok(q) => q,
+                Err(e) => {
+                    sim::with(|st| st.abort = Some(format!("query node: {e}")));
+                    return;
+                }
+            },
         };
         let everything: Vec<Row> = historical.iter().chain(pre_rows.iter()).chain(accepted.iter()).cloned().collect();
         let all = batch(1, &everything);
